@@ -22,3 +22,111 @@ def C14(ck):
         if not v.get("cover") or v.get("nvalid") != 1792 and not res["bad"]:
             if not v.get("cover"):
                 raise Machinery("coverage post-condition failed: trace is not the 65 536 values in order")
+
+
+def _claims_models(ck):
+    ck.add_model(vlib.mc("MC_Claims", "MC_Claims_setters.cfg"))
+    ck.add_model(vlib.mc("MC_Claims", "MC_Claims_decoded.cfg"))
+
+
+def _need_both_polarities(res, what):
+    acc = sum(v.get("accepted", 0) for v in res["verdicts"])
+    rej = sum(v.get("rejected", 0) for v in res["verdicts"])
+    if acc == 0 or rej == 0:
+        raise Machinery("vacuous %s run: accepted=%d rejected=%d" % (what, acc, rej))
+    return acc, rej
+
+
+def C01(ck):
+    ck.rule = ("claims-sets enumerated from the class tables TLC exports from spec/Gen_Claims.tla: all singles over the fine "
+               "value domain on three bases (built as literal, through JSON and through CBOR), all pairs, triples (sampled in "
+               "quick, all in thorough), byte-string lengths 0..80 x first-byte class x 3 contexts, the complete single-edit "
+               "neighbourhood of both reference shapes, component lists (0..2 entries over every field combination, every "
+               "deviation at every position of 3..4), random points of the product; each event = Validate + ten getters on the "
+               "real object, judged by Trace_Claims against PsaClaims!Valid / GetterRets; non-trivial = rejected by validation "
+               "or more than one component; distinct = distinct abstract object + results")
+    ck.assumptions = TRUST
+    _claims_models(ck)
+    dom = vlib.gen_export("Gen_Claims", "Gen_Claims.cfg", "domains")
+    hist, nh = vlib.gen_sim("Sim_Claims", "Sim_Claims.cfg", "hist", 300 if ck.tier == "quick" else 5000, 45, ck.seed)
+    try:
+        stats, res = ck.run_and_judge(["claims-read", "-seed", ck.seed, "-tier", ck.tier, "-in", dom, "-out", ck.path("cr")], "Trace_Claims")
+        # "the verdict depends on nothing else": validation inside setter / outside-mutation histories
+        ck.run_and_judge(["claims-hist", "-seed", ck.seed, "-in", hist, "-out", ck.path("ch")], "Trace_Claims")
+    finally:
+        _rm(dom, hist)
+    acc, rej = _need_both_polarities(res, "C01")
+    ck.extra.update(accepted=acc, rejected=rej, by_source=stats.get("by_source"), skipped_builds=stats.get("skipped_builds"))
+
+
+def _rm(*paths):
+    import os
+    for p in paths:
+        try:
+            os.remove(p)
+        except OSError:
+            pass
+
+
+def C11(ck):
+    ck.rule = ("(a) every setter of both profiles x byte lengths 0..80 x first-byte classes, the complete reference-shape "
+               "neighbourhood, lifecycle / client-id / VSI classes, 649 component lists and nil, on three pre-states (fresh, fully "
+               "valid, decoded-invalid); component setters over lengths 0..80; (b) setter histories of 40 operations simulated by TLC "
+               "from spec/Sim_Claims.tla (valid and invalid interleaved, SetSw / Add / nil / outside mutation of a stored component), "
+               "each replayed on a real claims-set, every step judged against PsaClaims!SetF / SetSwF / AddSwF, plus the canonical "
+               "replay (last successful value per claim, fixed order) compared on projection and on both encodings; "
+               "non-trivial = every setter step (distinct by abstract pre-state, argument and result)")
+    ck.assumptions = TRUST
+    ck.add_model(vlib.mc("MC_Claims", "MC_Claims_setters.cfg"))
+    dom = vlib.gen_export("Gen_Claims", "Gen_Claims.cfg", "domains")
+    nb = 800 if ck.tier == "quick" else 20000
+    hist, n = vlib.gen_sim("Sim_Claims", "Sim_Claims.cfg", "hist", nb, 45, ck.seed, procs=8 if ck.tier == "quick" else 16)
+    try:
+        ck.run_and_judge(["claims-sweep", "-seed", ck.seed, "-in", dom, "-out", ck.path("cs")], "Trace_Claims")
+        stats, res = ck.run_and_judge(["claims-hist", "-seed", ck.seed, "-in", hist, "-out", ck.path("ch")], "Trace_Claims")
+        ops = set()
+        for v in res["verdicts"]:
+            ops |= set(v.get("ops", []))
+        if not {"Set", "SetSw", "AddSw", "Read", "Canon", "Ext"} <= ops:
+            raise Machinery("history trace lacks operations: %s" % sorted(ops))
+        ck.extra.update(histories=n)
+    finally:
+        _rm(dom, hist)
+
+
+def C13(ck):
+    ck.rule = ("error classes (errors.Is against the five sentinels) of validation and of every getter on the C01 enumeration "
+               "(singles = exact class, pairs / triples / random = class of some offending claim), of every setter and component "
+               "getter of the C11 sweep, and FilterError over all 7 605 wrapping chains (13 bases x <=3 wrappers from %w, %v, "
+               "errors.Join, custom Unwrap, multi-Unwrap, two %w, Is-method) TLC enumerates from spec/Gen_Errors.tla; "
+               "non-trivial = an error was returned")
+    ck.assumptions = TRUST + ["errors.Is of the Go standard library computes the class set of an error value"]
+    ck.add_model(vlib.mc("MC_Claims", "MC_Claims_decoded.cfg"))
+    dom = vlib.gen_export("Gen_Claims", "Gen_Claims.cfg", "domains")
+    chains = vlib.gen_export("Gen_Errors", "Gen_Errors.cfg", "chains")
+    try:
+        ck.run_and_judge(["filter", "-in", chains, "-out", ck.path("fl")], "Trace_Claims")
+        ck.run_and_judge(["claims-sweep", "-seed", ck.seed, "-in", dom, "-out", ck.path("cs")], "Trace_Claims")
+        n = 2000 if ck.tier == "quick" else 50000
+        stats, res = ck.run_and_judge(["claims-read", "-seed", ck.seed, "-tier", ck.tier, "-n", n, "-in", dom, "-out", ck.path("cr")], "Trace_Claims")
+        _need_both_polarities(res, "C13")
+    finally:
+        _rm(dom, chains)
+
+
+def C18(ck):
+    ck.rule = ("read-side batteries (Validate + ten getters, twice) on every claims-set of the C01 enumeration with a deep "
+               "reflection snapshot (unexported fields, nil vs empty) and both encodings taken before and after; the Read steps of "
+               "TLC-simulated setter histories; decode (4 entry points) then overwrite the input buffer and re-read; "
+               "Evidence: see the evidence family (sign / decode / verify repeated, buffer overwritten); non-trivial = as C01")
+    ck.assumptions = TRUST
+    ck.add_model(vlib.mc("MC_Claims", "MC_Claims_decoded.cfg"))
+    dom = vlib.gen_export("Gen_Claims", "Gen_Claims.cfg", "domains")
+    hist, n = vlib.gen_sim("Sim_Claims", "Sim_Claims.cfg", "hist", 400 if ck.tier == "quick" else 8000, 45, ck.seed)
+    try:
+        ck.run_and_judge(["claims-scribble", "-seed", ck.seed, "-in", dom, "-out", ck.path("sc")], "Trace_Claims")
+        ck.run_and_judge(["claims-hist", "-seed", ck.seed, "-in", hist, "-out", ck.path("ch")], "Trace_Claims")
+        nr = 3000 if ck.tier == "quick" else 60000
+        ck.run_and_judge(["claims-read", "-seed", ck.seed, "-tier", ck.tier, "-n", nr, "-in", dom, "-out", ck.path("cr")], "Trace_Claims")
+    finally:
+        _rm(dom, hist)
